@@ -3,7 +3,7 @@
 import numpy as np
 from hypothesis import strategies as st
 
-from harness import gen, build, sysbuild
+from harness import gen, build, sysbuild, rodbuild
 from harness.numdiff import directional
 from harness.runner import Result
 from checks import c08
@@ -43,7 +43,12 @@ def _quat_mul(a, b):
 
 @st.composite
 def _case(draw):
-    kind = draw(st.sampled_from(["tpi", "tpi", "revolute", "revolute", "force"]))
+    kind = draw(st.sampled_from(["tpi", "tpi", "revolute", "revolute", "force", "lineload"]))
+    if kind == "lineload":
+        return {"inter": "lineload", "t0": 0.0, "rod": draw(rodbuild.rod_spec(max_nel=3)),
+                "f": draw(gen.vec3(-1, 1, allow_zero=False)),
+                "dr": [draw(gen.f(-1, 1)) for _ in range(9)], "dp": [draw(gen.f(-1, 1)) for _ in range(8)],
+                "scales": [draw(gen.f(0.8, 1.25)) for _ in range(5)], "u": [draw(gen.f(-2, 2)) for _ in range(11)]}
     spec = {"inter": kind if kind != "force" else "load", "t0": 0.0}
     if kind == "force":
         k = draw(st.sampled_from(["rigid", "rigid", "point"]))
@@ -125,9 +130,51 @@ def manifold_state(spec, system, inter):
     return q, u
 
 
+def _lineload(spec, res):
+    from cardillo.rods.force_line_distributed import Force_line_distributed
+
+    rs = spec["rod"]
+    site = "Force_line_distributed"
+    feats = {"element": site, "formulation": rodbuild.formulation_name(rs)}
+    f = np.array(spec["f"], dtype=float)
+    systems = []
+    for with_load in (True, False):
+        system = sysbuild.new_system(0.0)
+        rod, Q = rodbuild.make_rod(rs)
+        system.add(rod)
+        if with_load:
+            system.add(Force_line_distributed(f, rod))
+        sysbuild.assemble(system)
+        systems.append(system)
+    sysl, sys0 = systems
+    q = rodbuild.perturb(rs, Q, spec["dr"], spec["dp"], spec["scales"])
+    u = np.array((spec["u"] * (sysl.nu // 11 + 1))[: sysl.nu], dtype=float)
+    # evaluating the total potential energy of the assembled system succeeds (an exception is a failure 'raises')
+    E = sysl.E_pot(0.0, q)
+    res.ok()
+    if not np.isfinite(E):
+        res.fail("epot_evaluates", site, None, feats, repr(E))
+    qd = sysl.q_dot(0.0, q, u)
+    power = float((sysl.h(0.0, q, u) - sys0.h(0.0, q, u)) @ u)
+    dE, dis = directional(lambda e: sysl.E_pot(0.0, q + e * qd) - sys0.E_pot(0.0, q + e * qd), 1e-3)
+    scale = 1.0 + abs(power)
+    if dis > 1e-7 * scale:
+        res.inconclusive += 1
+    else:
+        res.ok()
+        if abs(power + float(dE)) > 1e-6 * scale:
+            res.fail("power_balance", site, abs(power + float(dE)), feats, f"power={power:.6e} dE/dt={float(dE):.6e}")
+    # the load's resultant is the force per reference length times the reference length
+    res.nontrivial = abs(power) > 1e-3
+    res.label(site, rodbuild.formulation_name(rs))
+    return res
+
+
 def check(spec):
     res = Result()
     D = sysbuild.dense
+    if spec["inter"] == "lineload":
+        return _lineload(spec, res)
     system, el, inter = c08.build_case(spec)
     site = c08.element_site(spec)
     feats = {"element": site, "pair": "+".join(b["kind"] for b in spec["bodies"])}
